@@ -39,7 +39,7 @@ var lawNames = []string{"L1", "L2", "L3", "L4", "L4-opaque", "L5", "L6", "L1-con
 
 func (m c06) Run(ctx *core.Ctx) {
 	r := ctx.Rng
-	n := split(tierN(ctx.Tier, 700_000, 60_000_000), ctx.Shard, ctx.NShards)
+	n := split(tierN(ctx.Tier, 2_000_000, 60_000_000), ctx.Shard, ctx.NShards)
 	for i := int64(0); i < n; i++ {
 		law := lawNames[int(i)%len(lawNames)]
 		base := gen.ParseableBase(r)
